@@ -100,6 +100,49 @@ def check_interleaved(rec, a, b):
             return
 
 
+def check_repeat(rec, rng, text):
+    """The same text tokenized again after an earlier tokenization of it
+    was abandoned part-way (dropped, closed or left suspended), and twice at
+    the same time: every complete run must partition the text."""
+    rec.case()
+    rec.monitor('interleaved_generators')
+    mode = rng.choice(['dropped', 'closed', 'suspended', 'twice'])
+    try:
+        g = lexer.tokenize(text)
+        k = rng.choice([0, 1, 2, 3, 5, 8])
+        part = []
+        for _ in range(k):
+            try:
+                part.append(next(g))
+            except StopIteration:
+                break
+        if mode == 'dropped':
+            del g
+        elif mode == 'closed':
+            g.close()
+        if mode == 'twice':
+            g2 = lexer.tokenize(text)
+            second = [next(g2, None)]
+            rest = list(g)
+            second = [t for t in second if t is not None] + list(g2)
+            runs = [part + rest, second]
+        else:
+            runs = [list(lexer.tokenize(text)), list(lexer.tokenize(text))]
+    except Exception as exc:
+        rec.violation('interleaved-raised', {'text': text, 'mode': mode},
+                      '%s: %s' % (type(exc).__name__, exc), key='rpexc')
+        return
+    for toks in runs:
+        err = oracles.lex_partition(text, toks)
+        if err:
+            rec.violation('repeated-not-a-partition',
+                          {'text': text, 'mode': mode},
+                          'tokenizing the same text again (earlier run %s '
+                          'after %d tokens): %s' % (mode, k, err), key='rp')
+            return
+    rec.hist('repeat_mode', mode)
+
+
 def shard(ctx):
     rec, rng = ctx.rec, ctx.rng
     # 1. exhaustive atom enumeration, sharded by index
@@ -123,10 +166,17 @@ def shard(ctx):
         check_text(rec, kind, text, full=(i % 3 == 0))
         if i % 10 == 0:
             check_interleaved(rec, text, hostile.hostile_text(rng)[1])
+        elif i % 10 == 5:
+            # a text this process has not tokenized before
+            check_repeat(rec, rng, hostile.hostile_text(rng)[1])
 
 
 def replay(ctx, kind, case):
     if 'other' in case:
         check_interleaved(ctx.rec, case['text'], case['other'])
+    elif 'mode' in case:
+        import random
+        for k in range(40):
+            check_repeat(ctx.rec, random.Random(k), case['text'])
     else:
         check_text(ctx.rec, case.get('source', 'replay'), case['text'])
